@@ -2,7 +2,12 @@
 Kernel histories biased to containment/resource moves; after every call the
 implementation's eURIFragment()/resource.resolve() are evaluated for every
 object under a resource (oracle) and compared with Model/Fragment.v
-(correspondence on the fragment text and on what it resolves to)."""
+(correspondence on the fragment text and on what it resolves to).
+Two implementation-only scenario families follow (own PRNG streams, replayable through
+common.scenario_replay): models saved, LOADED (XMI/JSON, plain and uuid, several roots, positional
+references inside the document) and then edited; metamodels (nested packages, built or loaded from
+.ecore) whose classifiers/members are renamed, removed, re-added under used names, swapped, moved --
+resolve(fragment(o)) is o and fragments pairwise distinct after the load and after every edit."""
 import copy
 import re
 
@@ -171,6 +176,8 @@ def run(ctx, out):
 
 def replay(ctx, rep):
     case = rep['case']
+    if case.get('scenario'):
+        return common.scenario_replay(ctx, rep, SCENARIOS)
     r = krun.Run(case, ['C11']).run()
     for s in r.steps:
         print(s['op'], '->', s['outcome'], s.get('frags'))
@@ -179,3 +186,738 @@ def replay(ctx, rep):
         return 1
     print('not reproduced')
     return 0
+
+
+# ---------------------------------------------------------------------------
+# scenario families (oracle on the implementation only, public API): the kernel
+# histories above run on freshly built resources; these cover what a LOAD leaves
+# behind in a resource and the name-based fragments of metamodel elements while
+# the metamodel is edited.
+
+def _reach(res):
+    """every object reachable from the roots through containment, each once, roots first"""
+    seen, found = set(), []
+    for root in list(res.contents):
+        todo = [root]
+        while todo:
+            o = todo.pop(0)
+            if id(o) in seen:
+                continue
+            seen.add(id(o))
+            found.append(o)
+            todo += list(o.eContents)
+    return found
+
+
+def _check_resolution(res, objs, label, only=None, ids=False):
+    """objs: the reachable objects the property talks about.  Returns (resolutions done, None | (clause, text))"""
+    frags, seen = {}, {}
+    for o in objs:
+        try:
+            frag = o.eURIFragment()
+        except Exception as e:  # noqa
+            return 0, ('fragment-raised', f'eURIFragment() of {label(o)} raised {type(e).__name__}: {e}')
+        if frag in seen:
+            return 0, ('not-distinct', f'{label(seen[frag])} and {label(o)} have the same fragment {frag!r}')
+        seen[frag] = o
+        frags[id(o)] = frag
+    n = 0
+    for o in (objs if only is None else only):
+        frag = frags[id(o)]
+        # the fragment is what follows the '#' of a URI (ecore.EModelElement.eURIFragment() includes the separator)
+        keys = [('fragment', frag[1:] if frag.startswith('#') else frag)]
+        if ids and getattr(o, '_internal_id', None):
+            keys.append(('id', o._internal_id))
+        for what, key in keys:
+            n += 1
+            try:
+                back = res.resolve(key)
+            except Exception as e:  # noqa
+                return n, ('resolve-raised', f'resolve({key!r}) ({what} of {label(o)}) raised {type(e).__name__}: {e}')
+            if back is not o:
+                return n, (f'{what}-resolves-elsewhere', f'{what} {key!r} of {label(o)} resolves to {label(back)}')
+    return n, None
+
+
+# ---- 1. load, then edit ----------------------------------------------------
+
+def _lte_metamodel(E):
+    pack = E.EPackage('lte', nsURI='http://verif/c11/load-then-edit', nsPrefix='lte')
+    Node = E.EClass('Node')
+    Leaf = E.EClass('Leaf', superclass=(Node,))
+    Node.eStructuralFeatures.extend([
+        E.EAttribute('name', E.EString),
+        E.EReference('children', Node, upper=-1, containment=True),
+        E.EReference('items', Node, upper=-1, containment=True, unique=False),   # an EList, not an ordered set
+        E.EReference('slot', Node, containment=True),
+        E.EReference('fav', Node),
+        E.EReference('links', Node, upper=-1)])
+    Leaf.eStructuralFeatures.append(E.EReference('parts', Leaf, upper=-1, containment=True))
+    pack.eClassifiers.extend([Node, Leaf])
+    return pack, Node, Leaf
+
+
+LTE_FORMATS = ['xmi', 'xmi', 'xmi-uuid', 'json', 'json-uuid']
+
+
+def load_edit_scenarios(ctx, out):
+    """random small models (several roots, containment through an ordered set, a list and a single slot, single and
+    many-valued references inside the document) are saved, loaded in a fresh resource set and then edited; after the
+    load and after every edit every object reachable from the roots must be what its fragment resolves to."""
+    import os
+    import tempfile
+    common.use_repo()
+    from pyecore import ecore as E
+    from pyecore.resources import ResourceSet, URI
+    from pyecore.resources.json import JsonResource
+    rng = common.rng_for(ctx.seed, 'C11:load_edit')
+    pack, Node, Leaf = _lte_metamodel(E)
+    n_models = 500 if ctx.tier != 'thorough' else 10000
+    cov = {'loads': 0, 'edits': 0, 'resolutions': 0, 'moves_between_parents': 0, 'root_edits': 0,
+           'documents_with_positional_refs': 0, 'abandoned': 0, 'by_format': {}}
+    samples = []
+
+    def new_rs():
+        rs = ResourceSet()
+        rs.metamodel_registry[pack.nsURI] = pack
+        rs.resource_factory['json'] = lambda uri: JsonResource(uri)
+        return rs
+
+    def label(o):
+        if isinstance(o, E.EObject) and isinstance(getattr(o, 'name', None), str):
+            return o.name
+        return repr(o)
+
+    def cont_feats(o):
+        return ['children', 'items', 'slot'] + (['parts'] if isinstance(o, Leaf) else [])
+
+    def ancestors(o):
+        res = []
+        while o is not None:
+            res.append(o)
+            o = o.eContainer()
+        return res
+
+    with tempfile.TemporaryDirectory() as td:
+        for it in range(n_models):
+            fmt = rng.choice(LTE_FORMATS)
+            nroots = rng.choice([1, 1, 1, 2, 2, 3])
+            nobj = rng.randrange(nroots + 1, 13)
+            objs = []
+            for i in range(nobj):
+                o = rng.choice([Node, Node, Leaf])(name=f'o{i}')
+                if i >= nroots:
+                    for _ in range(8):
+                        parent = rng.choice(objs)
+                        f = rng.choice(cont_feats(parent))
+                        if f == 'parts' and not isinstance(o, Leaf):
+                            continue
+                        if f == 'slot':
+                            if parent.slot is not None:
+                                continue
+                            parent.slot = o
+                        else:
+                            coll = parent.eGet(f)
+                            coll.insert(rng.randrange(len(coll) + 1), o)
+                        break
+                    else:
+                        objs[0].children.append(o)
+                objs.append(o)
+            nref = 0
+            for o in objs:
+                if rng.random() < 0.6:
+                    o.fav = rng.choice(objs)
+                    nref += 1
+                for t in rng.sample(objs, min(len(objs), rng.choice([0, 0, 1, 2, 3]))):
+                    o.links.append(t)
+                    nref += 1
+            ext = 'json' if fmt.startswith('json') else 'xmi'
+            path = os.path.join(td, f'm{it}.{ext}')
+            rs = new_rs()
+            res = rs.create_resource(URI(path))
+            res.use_uuid = fmt.endswith('uuid')
+            for o in objs[:nroots]:
+                res.append(o)
+            dump = [[o.name, o.eClass.name, o.eContainer().name if o.eContainer() else None,
+                     o.eContainmentFeature().name if o.eContainer() else None,
+                     o.fav.name if o.fav else None, [t.name for t in o.links]] for o in objs]
+            hist = [['model', fmt, nroots, dump]]
+            res.save()
+            rs2 = new_rs()
+            r2 = rs2.get_resource(URI(path))
+            os.unlink(path)
+            cov['loads'] += 1
+            cov['by_format'][fmt] = cov['by_format'].get(fmt, 0) + 1
+            if nref and not fmt.endswith('uuid'):
+                cov['documents_with_positional_refs'] += 1
+            known = _reach(r2)              # every object the history may use (also detached ones, later)
+            fresh = [0]
+            sig = {'property': PID, 'clause': None, 'scenario': 'load-then-edit', 'format': fmt}
+
+            def case():
+                return {'scenario': 'load_edit', 'seed': ctx.seed, 'tier': ctx.tier, 'format': fmt, 'roots': nroots,
+                        'history': [list(h) for h in hist]}
+
+            def verify():
+                n, bad = _check_resolution(r2, _reach(r2), label, ids=fmt.endswith('uuid'))
+                cov['resolutions'] += n
+                if bad:
+                    sig['clause'] = bad[0]
+                    out.fail(sig, f'{fmt} document loaded, then {hist[-1] if len(hist) > 1 else "nothing"}: {bad[1]}', case())
+                return bad is None
+
+            def candidate(owner, f):
+                """something that can be put into owner.f: a new object, a detached one, or one held elsewhere"""
+                if rng.random() < 0.4:
+                    fresh[0] += 1
+                    o = (Leaf if f == 'parts' or rng.random() < 0.3 else Node)(name=f'n{fresh[0]}')
+                    known.append(o)
+                    return o
+                up = ancestors(owner)
+                cur = owner.eGet(f)
+                cands = [o for o in known if not any(o is a for a in up) and (f != 'parts' or isinstance(o, Leaf))
+                         and not (f != 'slot' and any(o is x for x in cur)) and not (f == 'slot' and o is cur)]
+                return rng.choice(cands) if cands else None
+
+            if len(known) != len(objs) or not verify():
+                if len(known) != len(objs):
+                    cov['abandoned'] += 1     # the document did not come back whole: C08's subject
+                continue
+            nedits = rng.randrange(3, 10)
+            ok = True
+            for step in range(nedits):
+                attached = _reach(r2)
+                owners = attached if attached and rng.random() < 0.9 else known
+                owner = rng.choice(owners)
+                kind = rng.choice(['insert', 'insert', 'append', 'remove', 'remove', 'pop', 'pop', 'delitem', 'setitem',
+                                   'clear', 'slot', 'slot', 'extend', 'root-append', 'root-append', 'root-remove', 'link'])
+                f = rng.choice([x for x in cont_feats(owner) if x != 'slot'])
+                coll = owner.eGet(f)
+                h = None
+                try:
+                    if kind in ('insert', 'append', 'setitem', 'extend'):
+                        c = candidate(owner, f)
+                        if c is None or (kind == 'setitem' and (not len(coll) or f == 'items')):
+                            continue      # (list[i] = x on a containment EList: ownership of the replaced value is C02's subject)
+                        moved = c.eContainer() is not None
+                        if kind == 'insert':
+                            i = rng.randrange(len(coll) + 1)
+                            h = ['insert', owner.name, f, i, c.name]
+                            coll.insert(i, c)
+                        elif kind == 'append':
+                            h = ['append', owner.name, f, c.name]
+                            coll.append(c)
+                        elif kind == 'extend':
+                            c2 = candidate(owner, f)
+                            cs = [c] + ([c2] if c2 is not None and c2 is not c and
+                                        not any(c2 is a for a in ancestors(c)) and not any(c is a for a in ancestors(c2)) else [])
+                            h = ['extend', owner.name, f, [x.name for x in cs]]
+                            coll.extend(cs)
+                        else:
+                            i = rng.randrange(len(coll))
+                            h = ['setitem', owner.name, f, i, c.name]
+                            coll[i] = c
+                        cov['moves_between_parents'] += moved
+                    elif kind in ('remove', 'pop', 'delitem'):
+                        if not len(coll) or (kind == 'delitem' and f == 'items'):
+                            continue      # (del list[i] on a containment EList: same remark)
+                        if kind == 'remove':
+                            c = rng.choice(list(coll))
+                            h = ['remove', owner.name, f, c.name]
+                            coll.remove(c)
+                        elif kind == 'pop':
+                            i = rng.choice([None] + list(range(-len(coll), len(coll))))
+                            h = ['pop', owner.name, f, i]
+                            coll.pop() if i is None else coll.pop(i)
+                        else:
+                            i = rng.randrange(len(coll))
+                            h = ['delitem', owner.name, f, i]
+                            del coll[i]
+                    elif kind == 'clear':
+                        h = ['clear', owner.name, f]
+                        coll.clear()
+                    elif kind == 'slot':
+                        c = candidate(owner, 'slot') if rng.random() < 0.7 else None
+                        if c is not None:
+                            cov['moves_between_parents'] += c.eContainer() is not None
+                        h = ['slot', owner.name, c.name if c is not None else None]
+                        owner.slot = c
+                    elif kind == 'root-append':
+                        c = rng.choice(known) if rng.random() < 0.7 else Node(name=f'n{fresh[0] + 1}')
+                        if not any(c is x for x in known):
+                            fresh[0] += 1
+                            known.append(c)
+                        h = ['root-append', c.name]
+                        r2.append(c)
+                        cov['root_edits'] += 1
+                    elif kind == 'root-remove':
+                        if len(r2.contents) < 2 and rng.random() < 0.7:
+                            continue
+                        if not r2.contents:
+                            continue
+                        c = rng.choice(r2.contents)
+                        h = ['root-remove', c.name]
+                        r2.remove(c)
+                        cov['root_edits'] += 1
+                    else:
+                        t = rng.choice(known)
+                        if rng.random() < 0.5:
+                            h = ['fav', owner.name, t.name]
+                            owner.fav = t
+                        else:
+                            h = ['links-append', owner.name, t.name]
+                            owner.links.append(t)
+                except Exception as e:   # noqa  (what a legal edit may raise is the business of C01-C04)
+                    cov['abandoned'] += 1
+                    cov.setdefault('abandoned_on', []).append([h, type(e).__name__])
+                    break
+                hist.append(h)
+                cov['edits'] += 1
+                if not verify():
+                    ok = False
+                    break
+            if ok and len(samples) < 3:
+                samples.append(case())
+    cov['abandoned_on'] = cov.get('abandoned_on', [])[:5]
+    out.coverage['load_then_edit'] = cov
+    out.coverage.setdefault('scenario_samples', []).extend(samples[:2])
+
+
+# ---- 2. name-based fragments of metamodel elements while the metamodel is edited ----
+
+# one pool of names per kind and disjoint pools: siblings of different kinds with the same name (a classifier named
+# like a sub-package, a feature named like an operation) are legal Ecore and legitimately ambiguous; not generated
+MM_NAMES = {'classifier': ['A', 'B', 'C', 'D', 'Item', 'Order', 'Kind', 'Money'],
+            'package': ['sub', 'inner', 'deep', 'aux'],
+            'feature': ['x', 'y', 'z', 'ref', 'val', 'label'],
+            'operation': ['run', 'stop', 'compute'],
+            'literal': ['l0', 'l1', 'l2', 'RED', 'GREEN'],
+            'parameter': ['p', 'q', 'r'],
+            'typeparameter': ['T', 'U']}
+
+
+def metamodel_edit_scenarios(ctx, out):
+    """a package tree (nested sub-packages, one or two roots) in a resource -- built in memory or loaded from an
+    .ecore document -- is edited: classifiers/members added, renamed in place, removed, re-added under a name used
+    before, names swapped, classifiers moved to another package; fragments are resolved before the edits and after
+    every edit every named element reachable from the roots must be what its fragment resolves to."""
+    import os
+    import tempfile
+    common.use_repo()
+    from pyecore import ecore as E
+    from pyecore.resources import ResourceSet, URI
+    rng = common.rng_for(ctx.seed, 'C11:metamodel_edit')
+    n_cases = 110 if ctx.tier != 'thorough' else 2500
+    cov = {'metamodels': 0, 'loaded_from_ecore': 0, 'edits': 0, 'resolutions': 0, 'by_edit': {}, 'abandoned': 0,
+           'names_reused': 0, 'two_root_states': 0, 'abandoned_on': []}
+    samples = []
+    uid = [0]
+
+    def kind_of(o):
+        if isinstance(o, E.EPackage):
+            return 'package'
+        if isinstance(o, E.EClassifier):
+            return 'classifier'
+        if isinstance(o, E.EStructuralFeature):
+            return 'feature'
+        if isinstance(o, E.EOperation):
+            return 'operation'
+        if isinstance(o, E.EEnumLiteral):
+            return 'literal'
+        if isinstance(o, E.EParameter):
+            return 'parameter'
+        if isinstance(o, E.ETypeParameter):
+            return 'typeparameter'
+        return None
+
+    def siblings(parent):
+        return [c for c in parent.eContents if kind_of(c)]
+
+    def free_names(parent, kind):
+        used = {c.name for c in siblings(parent)}
+        return [n for n in MM_NAMES[kind] if n not in used]
+
+    with tempfile.TemporaryDirectory() as td:
+        for it in range(n_cases):
+            tags = {}
+            keep = []          # (ids stay unique while the objects are alive)
+            limbo = []         # classifiers taken out of the metamodel
+            everused = {}      # id(package) -> names its classifiers carried at some point
+
+            def tag(o):
+                if id(o) not in tags:
+                    keep.append(o)
+                    tags[id(o)] = f'{kind_of(o) or type(o).__name__}{len(keep)}'
+                return tags[id(o)]
+
+            def label(o):
+                if isinstance(o, E.EObject) and kind_of(o):
+                    return f'{tag(o)}({type(o).__name__} {o.name!r})'
+                return repr(o)
+
+            def note_name(pkg, name):
+                everused.setdefault(id(pkg), set()).add(name)
+
+            def make_class(name, classes):
+                c = E.EClass(name)
+                for fn in rng.sample(MM_NAMES['feature'], rng.randrange(0, 4)):
+                    if classes and rng.random() < 0.5:
+                        c.eStructuralFeatures.append(E.EReference(fn, rng.choice(classes), upper=rng.choice([1, -1])))
+                    else:
+                        c.eStructuralFeatures.append(E.EAttribute(fn, rng.choice([E.EString, E.EInt, E.EBoolean])))
+                for on in rng.sample(MM_NAMES['operation'], rng.choice([0, 0, 1, 2])):
+                    op = E.EOperation(on)
+                    for pn in rng.sample(MM_NAMES['parameter'], rng.randrange(0, 3)):
+                        op.eParameters.append(E.EParameter(pn, E.EString))
+                    c.eOperations.append(op)
+                for tn in rng.sample(MM_NAMES['typeparameter'], rng.choice([0, 0, 0, 1, 2])):
+                    c.eTypeParameters.append(E.ETypeParameter(tn))
+                return c
+
+            def make_classifier(name, classes):
+                r = rng.random()
+                if r < 0.7:
+                    return make_class(name, classes)
+                if r < 0.9:
+                    return E.EEnum(name, literals=rng.sample(MM_NAMES['literal'], rng.randrange(1, 4)))
+                return E.EDataType(name, instanceClassName='java.lang.Object')
+
+            def make_package(name):
+                uid[0] += 1
+                return E.EPackage(name, nsURI=f'http://verif/c11/mm/{uid[0]}', nsPrefix=f'{name}{uid[0]}')
+
+            # ---- the initial metamodel
+            roots = [make_package('root')] + ([make_package('second')] if rng.random() < 0.3 else [])
+            pkgs = list(roots)
+            for sn in rng.sample(MM_NAMES['package'], rng.randrange(1, 4)):
+                parent = rng.choice(pkgs)
+                sp = make_package(sn)
+                parent.eSubpackages.append(sp)
+                pkgs.append(sp)
+            classes = []
+            for pkg in pkgs:
+                for cn in rng.sample(MM_NAMES['classifier'], rng.randrange(0, 5) if pkg is not roots[0] else rng.randrange(2, 5)):
+                    c = make_classifier(cn, classes)
+                    pkg.eClassifiers.append(c)
+                    if isinstance(c, E.EClass):
+                        classes.append(c)
+            rs = ResourceSet()
+            loaded = rng.random() < 0.4
+            res = rs.create_resource(URI(os.path.join(td, f'mm{it}.ecore')))
+            for r in roots:
+                res.append(r)
+            hist = [['metamodel', 'loaded' if loaded else 'built',
+                     [[o.eURIFragment(), type(o).__name__] for o in _reach(res) if kind_of(o)]]]
+            if loaded:
+                res.save()
+                rs = ResourceSet()
+                res = rs.get_resource(URI(os.path.join(td, f'mm{it}.ecore')))
+                os.unlink(os.path.join(td, f'mm{it}.ecore'))
+                cov['loaded_from_ecore'] += 1
+            cov['metamodels'] += 1
+            spare = make_package('spare')     # a root that comes and goes
+            sig = {'property': PID, 'clause': None, 'scenario': 'metamodel-edit', 'loaded': loaded}
+
+            def named():
+                return [o for o in _reach(res) if kind_of(o)]
+
+            def all_classifiers():
+                return [o for o in _reach(res) if isinstance(o, E.EClassifier)]
+
+            for c in all_classifiers():
+                note_name(c.ePackage, c.name)
+
+            def case():
+                return {'scenario': 'metamodel_edit', 'seed': ctx.seed, 'tier': ctx.tier, 'loaded': loaded,
+                        'history': [list(h) for h in hist]}
+
+            def verify(full=True):
+                objs = named()
+                only = None
+                if not full:
+                    only = [o for o in objs if rng.random() < 0.4]
+                cov['two_root_states'] += len(res.contents) > 1
+                n, bad = _check_resolution(res, objs, label, only=only)
+                cov['resolutions'] += n
+                if bad:
+                    sig['clause'] = bad[0]
+                    last = [h for h in hist[1:] if h[0] != 'check'][-1]
+                    out.fail(sig, f'metamodel ({hist[0][1]}) after {last}: {bad[1]}', case())
+                return bad is None
+
+            # fragments resolved BEFORE any edit (all of them, some of them, or by name look-ups only)
+            pre = rng.choice(['all', 'all', 'some', 'lookups'])
+            hist.append(['resolve-before', pre])
+            if pre == 'lookups':
+                for c in all_classifiers():
+                    c.ePackage.getEClassifier(c.name)
+            elif not verify(full=(pre == 'all')):
+                continue
+            pending = None
+            ok = True
+            for step in range(rng.randrange(3, 11)):
+                kind = rng.choice(['add', 'add', 'rename', 'rename', 'rename-member', 'remove', 'remove', 'readd', 'readd',
+                                   'swap', 'swap', 'swap-members', 'move', 'move', 'takeover', 'takeover', 'rename-package',
+                                   'add-member', 'remove-member', 'move-member', 'root', 'move-package', 'back'])
+                if pending:
+                    kind = 'add'
+                elif limbo and rng.random() < 0.2:
+                    kind = 'readd'
+                h = None
+                try:
+                    N = named()
+                    P = [o for o in N if isinstance(o, E.EPackage)]
+                    C = [o for o in N if isinstance(o, E.EClassifier)]
+                    if kind == 'add':
+                        if pending:
+                            pkg, name = pending
+                            pending = None
+                            if name not in free_names(pkg, 'classifier') or not any(pkg is p for p in P):
+                                continue
+                        else:
+                            pkg = rng.choice(P)
+                            free = free_names(pkg, 'classifier')
+                            again = [n for n in free if n in everused.get(id(pkg), ())]
+                            if not free:
+                                continue
+                            name = rng.choice(again) if again and rng.random() < 0.7 else rng.choice(free)
+                        cov['names_reused'] += name in everused.get(id(pkg), ())
+                        c = make_classifier(name, [x for x in C if isinstance(x, E.EClass)])
+                        how = rng.choice(['append', 'insert', 'extend'])
+                        h = ['add', how, tag(pkg), type(c).__name__, name, tag(c)]
+                        if how == 'append':
+                            pkg.eClassifiers.append(c)
+                        elif how == 'insert':
+                            pkg.eClassifiers.insert(rng.randrange(len(pkg.eClassifiers) + 1), c)
+                        else:
+                            pkg.eClassifiers.extend([c])
+                        note_name(pkg, name)
+                    elif kind in ('rename', 'takeover'):
+                        if not C:
+                            continue
+                        c = rng.choice(C)
+                        free = free_names(c.ePackage, 'classifier')
+                        if not free:
+                            continue
+                        new = rng.choice(free)
+                        h = ['rename', tag(c), c.name, new]
+                        if kind == 'takeover':
+                            pending = (c.ePackage, c.name)      # the next edit gives the old name to a new classifier
+                        c.name = new
+                        note_name(c.ePackage, new)
+                    elif kind == 'rename-member':
+                        ms = [m for c in C for m in siblings(c)] + [p for c in C for o in siblings(c)
+                                                                    if isinstance(o, E.EOperation) for p in siblings(o)]
+                        if not ms:
+                            continue
+                        m = rng.choice(ms)
+                        free = free_names(m.eContainer(), kind_of(m))
+                        if not free:
+                            continue
+                        new = rng.choice(free)
+                        h = ['rename-member', tag(m), m.name, new]
+                        m.name = new
+                    elif kind == 'remove':
+                        if len(C) < 2:
+                            continue
+                        c = rng.choice(C)
+                        pkg = c.ePackage
+                        how = rng.choice(['remove', 'pop', 'delitem'])
+                        h = ['remove', how, tag(pkg), tag(c), c.name]
+                        if how == 'remove':
+                            pkg.eClassifiers.remove(c)
+                        elif how == 'pop':
+                            pkg.eClassifiers.pop(list(pkg.eClassifiers).index(c))
+                        else:
+                            del pkg.eClassifiers[list(pkg.eClassifiers).index(c)]
+                        limbo.append(c)
+                    elif kind == 'readd':
+                        if not limbo:
+                            continue
+                        c = limbo.pop(rng.randrange(len(limbo)))
+                        pkg = rng.choice(P)
+                        free = free_names(pkg, 'classifier')
+                        if not free:
+                            continue
+                        if c.name not in free or rng.random() < 0.4:
+                            again = [n for n in free if n in everused.get(id(pkg), ())]
+                            c.name = rng.choice(again or free)
+                        cov['names_reused'] += c.name in everused.get(id(pkg), ())
+                        h = ['readd', tag(pkg), tag(c), c.name]
+                        pkg.eClassifiers.append(c)
+                        note_name(pkg, c.name)
+                    elif kind == 'swap':
+                        pairs = [p for p in P if len(p.eClassifiers) > 1]
+                        if not pairs:
+                            continue
+                        pkg = rng.choice(pairs)
+                        a, b = rng.sample(list(pkg.eClassifiers), 2)
+                        how = rng.choice(['direct', 'through-temporary'])
+                        h = ['swap', how, tag(a), a.name, tag(b), b.name]
+                        if how == 'direct':
+                            a.name, b.name = b.name, a.name
+                        else:
+                            na, nb = a.name, b.name
+                            a.name = 'Tmp'
+                            b.name = na
+                            a.name = nb
+                    elif kind == 'swap-members':
+                        owners = [o for o in C if len(siblings(o)) > 1]
+                        if not owners:
+                            continue
+                        o = rng.choice(owners)
+                        a, b = rng.sample(siblings(o), 2)
+                        h = ['swap-members', tag(a), a.name, tag(b), b.name]
+                        a.name, b.name = b.name, a.name
+                    elif kind == 'move':
+                        if not C or len(P) < 2:
+                            continue
+                        c = rng.choice(C)
+                        dsts = [p for p in P if p is not c.ePackage and c.name in free_names(p, 'classifier')]
+                        if not dsts:
+                            continue
+                        dst = rng.choice(dsts)
+                        h = ['move', tag(c), c.name, tag(c.ePackage), tag(dst)]
+                        if rng.random() < 0.5:
+                            dst.eClassifiers.append(c)
+                        else:
+                            dst.eClassifiers.insert(0, c)
+                        note_name(dst, c.name)
+                    elif kind == 'rename-package':
+                        subs = [p for p in P if p.eContainer() is not None]
+                        if not subs:
+                            continue
+                        p = rng.choice(subs)
+                        free = free_names(p.eContainer(), 'package')
+                        if not free:
+                            continue
+                        new = rng.choice(free)
+                        h = ['rename-package', tag(p), p.name, new]
+                        p.name = new
+                    elif kind == 'move-package':
+                        subs = [p for p in P if p.eContainer() is not None]
+                        if not subs:
+                            continue
+                        p = rng.choice(subs)
+                        inside = [x for x in _reach_from(p) if isinstance(x, E.EPackage)]
+                        dsts = [d for d in P if not any(d is x for x in inside) and d is not p.eContainer()
+                                and p.name in free_names(d, 'package')]
+                        if not dsts:
+                            continue
+                        dst = rng.choice(dsts)
+                        h = ['move-package', tag(p), p.name, tag(dst)]
+                        dst.eSubpackages.append(p)
+                    elif kind == 'add-member':
+                        cls = [c for c in C if isinstance(c, (E.EClass, E.EEnum))]
+                        if not cls:
+                            continue
+                        c = rng.choice(cls)
+                        if isinstance(c, E.EEnum):
+                            free = free_names(c, 'literal')
+                            if not free:
+                                continue
+                            m = E.EEnumLiteral(name=rng.choice(free), value=len(c.eLiterals))
+                            h = ['add-member', tag(c), 'literal', m.name, tag(m)]
+                            c.eLiterals.append(m)
+                        elif rng.random() < 0.6:
+                            free = free_names(c, 'feature')
+                            if not free:
+                                continue
+                            m = E.EAttribute(rng.choice(free), E.EString)
+                            h = ['add-member', tag(c), 'feature', m.name, tag(m)]
+                            c.eStructuralFeatures.insert(rng.randrange(len(c.eStructuralFeatures) + 1), m)
+                        else:
+                            free = free_names(c, 'operation')
+                            if not free:
+                                continue
+                            m = E.EOperation(rng.choice(free))
+                            h = ['add-member', tag(c), 'operation', m.name, tag(m)]
+                            c.eOperations.append(m)
+                    elif kind == 'remove-member':
+                        ms = [m for c in C if isinstance(c, E.EClass) for m in siblings(c)
+                              if isinstance(m, (E.EStructuralFeature, E.EOperation))]
+                        if not ms:
+                            continue
+                        m = rng.choice(ms)
+                        h = ['remove-member', tag(m), m.name]
+                        coll = m.eContainer().eGet(m.eContainmentFeature())
+                        coll.remove(m)
+                    elif kind == 'move-member':
+                        ms = [m for c in C if isinstance(c, E.EClass) for m in siblings(c)
+                              if isinstance(m, (E.EStructuralFeature, E.EOperation))]
+                        if not ms:
+                            continue
+                        m = rng.choice(ms)
+                        dsts = [c for c in C if isinstance(c, E.EClass) and c is not m.eContainer()
+                                and m.name in free_names(c, kind_of(m))]
+                        if not dsts:
+                            continue
+                        dst = rng.choice(dsts)
+                        h = ['move-member', tag(m), m.name, tag(dst)]
+                        (dst.eStructuralFeatures if isinstance(m, E.EStructuralFeature) else dst.eOperations).append(m)
+                    elif kind == 'root':
+                        if any(spare is r for r in res.contents):
+                            h = ['root-remove', tag(spare)]
+                            res.remove(spare)
+                        elif len(res.contents) > 1 and rng.random() < 0.4:
+                            r = res.contents[-1]
+                            h = ['root-remove', tag(r)]
+                            res.remove(r)
+                            spare = r
+                        else:
+                            h = ['root-append', tag(spare)]
+                            res.append(spare)
+                    else:   # 'back': a classifier gets back a name it (or another one) carried before in this package
+                        cands = [(c, n) for c in C for n in free_names(c.ePackage, 'classifier')
+                                 if n in everused.get(id(c.ePackage), ())]
+                        if not cands:
+                            continue
+                        c, new = rng.choice(cands)
+                        cov['names_reused'] += 1
+                        h = ['rename', tag(c), c.name, new]
+                        c.name = new
+                except Exception as e:   # noqa  (what a legal metamodel edit may raise is the business of C12)
+                    cov['abandoned'] += 1
+                    cov['abandoned_on'].append([h, type(e).__name__, str(e)[:80]])
+                    break
+                hist.append(h)
+                cov['edits'] += 1
+                cov['by_edit'][h[0]] = cov['by_edit'].get(h[0], 0) + 1
+                full = rng.random() < 0.75
+                hist.append(['check', 'all' if full else 'some'])
+                if not verify(full):
+                    ok = False
+                    break
+            else:
+                hist.append(['check', 'all'])
+                ok = verify(True)
+            if ok and len(samples) < 2:
+                samples.append(case())
+    cov['abandoned_on'] = cov['abandoned_on'][:5]
+    out.coverage['metamodel_edit'] = cov
+    out.coverage.setdefault('scenario_samples', []).extend(samples[:1])
+
+
+def _reach_from(o):
+    found, todo = [], [o]
+    while todo:
+        x = todo.pop(0)
+        found.append(x)
+        todo += list(x.eContents)
+    return found
+
+
+SCENARIOS = {'load_edit': load_edit_scenarios, 'metamodel_edit': metamodel_edit_scenarios}
+
+
+_kernel_run = run
+
+
+def run(ctx, out):   # noqa: F811
+    _kernel_run(ctx, out)
+    load_edit_scenarios(ctx, out)
+    metamodel_edit_scenarios(ctx, out)
+    a, b = out.coverage['load_then_edit'], out.coverage['metamodel_edit']
+    out.coverage['scenario_loads'] = a['loads'] + b['loaded_from_ecore']
+    out.coverage['scenario_edits'] = a['edits'] + b['edits']
+    out.coverage['scenario_resolutions_checked'] = a['resolutions'] + b['resolutions']
